@@ -15,12 +15,12 @@ Model: `TLVerif/Sema/Semaphore.lean`.  Every mutex-protected critical section of
 "Eventually admitted" is proved in its strongest form, as a state invariant (`NoLost`): between any two
 critical sections there is no first waiter that the capacity would allow to proceed — so the wait is zero steps.
 
-**Finding.** The invariant does *not* hold for all histories of the real code: besides the documented misuse
-(`Release` of more than is held, which panics after having decremented `cur` and without waking anybody),
-`Acquire`'s cancellation branch tests `isFront && s.size > s.cur` before calling `notifyWaiters`; when the
-cancelled front waiter leaves behind a waiter of weight 0 while `size = cur`, that waiter fits (0 ≤ size − cur)
-and stays asleep (`ZeroGap`).  The full-strength statement is kept as `NoLostWakeupFull`, refuted by
-`no_lost_wakeup_fails_at`, and proved under the exact decidable guard as `no_lost_wakeup_partial`.
+**History.** Up to repository commit 616a0ec3 `Acquire`'s cancellation branch tested `isFront && s.size > s.cur` before
+calling `notifyWaiters`; a cancelled front waiter that left a waiter of weight 0 behind while `size = cur` kept that
+waiter asleep although it fitted (found by this check; `sema.h 1 t1,a1,a0,c0`).  The code now tests `>=`, the model's
+`stepCancel` follows it, and the full-strength statement `NoLostWakeupFull` is a theorem (`no_lost_wakeup`), under the
+only remaining guard: no `Release` of more than is held (the documented misuse, which panics after having decremented
+`cur` and without waking anybody).  The old behaviour is kept as the counter-example `no_lost_wakeup_fails_with_strict_gt`.
 -/
 namespace TLVerif.Props.C42
 open TLVerif.Sema
@@ -105,63 +105,58 @@ theorem cur_bounded_without_force (M : Int) (s : State) (ops : List Op) (hc : s.
 
 /-! ## Part 2 — never loses wake-ups -/
 
-/-- Full-strength statement: after every history from a fresh semaphore, no fitting first waiter is asleep. -/
-def NoLostWakeupFull : Prop := ∀ (size : Int) (ops : List Op), NoLost (exec (init size) ops)
+/-- **Full-strength statement**: for every initial size and every history (= every concurrent schedule) that contains
+no over-release, after *every* prefix of the history there is no first waiter that the capacity would allow to proceed. -/
+def NoLostWakeupFull : Prop :=
+  ∀ (size : Int) (ops : List Op), CleanRun (init size) ops → ∀ k, NoLost (exec (init size) (ops.take k))
 
-/-- The shortest refuting history: `NewWeighted(1)`; `TryAcquire(1)`; `Acquire(1)` blocks (ticket 0);
-`Acquire(0)` queues behind it (ticket 1); the context of ticket 0 is cancelled.  Ticket 1 now fits
-(`0 ≤ size − cur = 0`) and is not woken. -/
-def failingHistory : List Op := [.tryAcquire 1, .acquire 1, .acquire 0, .cancel 0]
+/-- **no_lost_wakeup** (main theorem). -/
+theorem no_lost_wakeup : NoLostWakeupFull :=
+  fun size _ hc k => exec_noLost _ _ (init_noLost size) (cleanRun_take _ _ k hc)
 
-theorem no_lost_wakeup_fails_at : ¬ NoLost (exec (init 1) failingHistory) := by decide
-
-theorem no_lost_wakeup_full_fails : ¬ NoLostWakeupFull := fun h => no_lost_wakeup_fails_at (h 1 failingHistory)
-
-/-- A variant in which nothing is held at all and the waiter sleeps for ever: after it, `cur = size = 0`,
-a weight-0 waiter is queued, and `TryAcquire(0)` fails although a fresh `NewWeighted(0)` admits it. -/
-def hangingHistory : List Op :=
-  [.tryAcquire 1, .acquire 1, .acquire 0, .setSize 0, .release 1, .cancel 0]
-
-theorem hanging_history_state :
-    (exec (init 1) hangingHistory).cur = 0 ∧ (exec (init 1) hangingHistory).size = 0 ∧
-    (exec (init 1) hangingHistory).waiters = [⟨1, 0⟩] ∧
-    (step (exec (init 1) hangingHistory) (.tryAcquire 0)).2.res = .no ∧
-    (step (init 0) (.tryAcquire 0)).2.res = .yes := by decide
-
-/-- **no_lost_wakeup (step form, exact guard).** From any state satisfying the invariant, every step that is
-neither an over-release nor the zero-weight cancellation gap re-establishes it. -/
-theorem no_lost_wakeup_step_partial (s : State) (op : Op) (h : NoLost s) (hc : Clean s op) :
+/-- Step form: from any state satisfying the invariant, every step that is not an over-release re-establishes it
+(weight 0, cancellations of any ticket, shrinking resizes, forced acquisitions included). -/
+theorem no_lost_wakeup_step (s : State) (op : Op) (h : NoLost s) (hc : ¬ OverRelease s op) :
     NoLost (step s op).1 := step_noLost s op h hc
 
-/-- The guard is exact on the cancellation side: in the `ZeroGap` situation the invariant is always lost. -/
-theorem zero_gap_exact (s : State) (id : Nat) (hz : ZeroGap s id) : ¬ NoLost (step s (.cancel id)).1 :=
-  zeroGap_breaks s id hz
+/-- The guard cannot be dropped: an over-release leaves a fitting waiter asleep (`cur` is decremented before the
+panic and `notifyWaiters` is skipped).  `NewWeighted(1)`: `TryAcquire(1)`, `Acquire(1)` blocks, `Release(2)` panics
+with `cur = -1`; the waiter of weight 1 fits into `size − cur = 2` and sleeps. -/
+theorem over_release_guard_needed : ¬ NoLost (exec (init 1) [.tryAcquire 1, .acquire 1, .release 2]) := by decide
 
-/-- **no_lost_wakeup (history form).** For every initial size and every history all of whose steps are `Clean`
-(a decidable predicate of the history), the invariant holds after *every* prefix. -/
-theorem no_lost_wakeup_partial (size : Int) (ops : List Op) (hc : CleanRun (init size) ops) :
-    ∀ k, NoLost (exec (init size) (ops.take k)) :=
-  fun k => exec_noLost _ _ (init_noLost size) (cleanRun_take _ _ k hc)
+/-! ### Historical counter-example: the strict test `s.size > s.cur` (code before 616a0ec3) -/
 
-/-- **no_lost_wakeup for positive weights.** If no blocking `Acquire` asks for weight 0 and no `Release` gives back
-more than is held, the invariant holds after every prefix of the history — the guard of the partial theorem
-never triggers for the usual use of the semaphore. -/
-theorem no_lost_wakeup_positive (size : Int) (ops : List Op) (hp : ∀ op ∈ ops, op ≠ .acquire 0)
-    (hr : NoOverRelease (init size) ops) : ∀ k, NoLost (exec (init size) (ops.take k)) :=
-  no_lost_wakeup_partial size ops (cleanRun_of_pos _ _ (by simp [PosQueue, init]) hp hr)
+/-- `NewWeighted(1)`; `TryAcquire(1)`; `Acquire(1)` blocks (ticket 0); `Acquire(0)` queues behind it (ticket 1); the
+context of ticket 0 is cancelled.  With the strict test ticket 1 fits (`0 ≤ size − cur = 0`) and is not woken. -/
+def strictGtHistory : List Op := [.tryAcquire 1, .acquire 1, .acquire 0, .cancel 0]
 
-/-- **The suggested repair is sufficient.** With the cancellation test changed to `isFront && s.size >= s.cur`
-(`stepCancelFixed`; identical to the original outside the gap, `stepCancelFixed_eq`) the full-strength invariant
-holds after every history that contains no over-release — weight 0 included. -/
-theorem no_lost_wakeup_fixed (size : Int) (ops : List Op) (hr : NoOverReleaseFixed (init size) ops) :
-    NoLost (execFixed (init size) ops) :=
-  execFixed_noLost _ _ (init_noLost size) hr
+theorem no_lost_wakeup_fails_with_strict_gt : ¬ NoLost (execStrictGt (init 1) strictGtHistory) := by decide
 
-theorem fixed_differs_only_in_gap (s : State) (id : Nat) (h : ¬ (isFront s id = true ∧ s.size = s.cur)) :
-    stepCancelFixed s id = stepCancel s id := stepCancelFixed_eq s id h
+/-- …while the repaired step wakes it in that very history. -/
+theorem strict_gt_history_now_fine :
+    NoLost (exec (init 1) strictGtHistory) ∧ (exec (init 1) strictGtHistory).waiters = [] := by decide
+
+/-- With the strict test the waiter could sleep for ever with nothing held: after this history `cur = size = 0`,
+a weight-0 waiter is queued and `TryAcquire(0)` fails although a fresh `NewWeighted(0)` admits it. -/
+def strictGtHangingHistory : List Op :=
+  [.tryAcquire 1, .acquire 1, .acquire 0, .setSize 0, .release 1, .cancel 0]
+
+theorem strict_gt_hanging_state :
+    (execStrictGt (init 1) strictGtHangingHistory).cur = 0 ∧ (execStrictGt (init 1) strictGtHangingHistory).size = 0 ∧
+    (execStrictGt (init 1) strictGtHangingHistory).waiters = [⟨1, 0⟩] ∧
+    (step (execStrictGt (init 1) strictGtHangingHistory) (.tryAcquire 0)).2.res = .no ∧
+    (exec (init 1) strictGtHangingHistory).waiters = [] := by decide
+
+/-- The old branch lost the invariant exactly in the gap (front cancelled, `size = cur`, next weight 0)… -/
+theorem strict_gt_gap_breaks (s : State) (id : Nat) (hz : ZeroGap s id) : ¬ NoLost (stepCancelStrictGt s id).1 :=
+  zeroGap_breaks_strictGt s id hz
+
+/-- …and is identical to the repaired one everywhere else. -/
+theorem strict_gt_differs_only_in_gap (s : State) (id : Nat) (h : ¬ (isFront s id = true ∧ s.size = s.cur)) :
+    stepCancelStrictGt s id = stepCancel s id := stepCancelStrictGt_eq s id h
 
 /-- Self-stabilisation: `Release` (that does not panic) and `SetSize` re-establish the invariant from *any*
-state, in particular after one of the two excluded situations. -/
+state, in particular after an over-release. -/
 theorem release_restores (s : State) (n : Int) (h0 : 0 ≤ n) (h1 : n ≤ s.cur) : NoLost (step s (.release n)).1 := by
   simp only [step, stepRelease]
   split
@@ -184,19 +179,19 @@ theorem setSize_admits_front (s : State) (n : Int) (w : Waiter) (ws : List Waite
     ∃ rest, (step s (.setSize n)).2.adm = ⟨some w.id, w.n, s.cur + w.n, n⟩ :: rest :=
   Sema.setSize_admits_front s n w ws hw hfit
 
-/-- **cancel_preserves.** Cancelling a waiter (outside the zero-weight gap) keeps the invariant, never changes
+/-- **cancel_preserves.** Cancelling a waiter keeps the invariant (unconditionally), never changes
 `size`, changes `cur` only through the admissions it lists, and removes exactly that ticket from the queue:
 the woken tickets followed by the remaining queue are the old queue without the cancelled ticket, in order. -/
-theorem cancel_preserves (s : State) (id : Nat) (h : NoLost s) (hz : ¬ ZeroGap s id) :
+theorem cancel_preserves (s : State) (id : Nat) (h : NoLost s) :
     NoLost (step s (.cancel id)).1 ∧
     (step s (.cancel id)).1.size = s.size ∧
     Chain s.cur (step s (.cancel id)).2.adm (step s (.cancel id)).1.cur ∧
     (step s (.cancel id)).2.adm.map Adm.key ++ (step s (.cancel id)).1.waiters.map Waiter.key =
       (s.waiters.filter (fun w => !(w.id == id))).map Waiter.key := by
-  refine ⟨stepCancel_noLost s id h hz, ?_, step_chain s (.cancel id), step_queue s (.cancel id)⟩
+  refine ⟨stepCancel_noLost s id h, ?_, step_chain s (.cancel id), step_queue s (.cancel id)⟩
   simp only [step, stepCancel]
   split
-  · by_cases hnf : (isFront s id = true ∧ s.size > s.cur)
+  · by_cases hnf : (isFront s id = true ∧ s.size ≥ s.cur)
     · simp only [hnf, and_self, if_true]; rfl
     · simp only [hnf, if_false]
   · split <;> rfl
@@ -312,7 +307,7 @@ example : CleanRun (init 2) [.acquire 2, .acquire 1, .acquire 1, .cancel 1, .for
   decide
 example : (exec (init 2) [.acquire 2, .acquire 1, .acquire 1, .cancel 1, .force 1, .release 3]).waiters = [] := by
   decide
-example : NoOverRelease (init 2) [.acquire 2, .acquire 1, .cancel 1, .force 1, .release 3] := by decide
+example : CleanRun (init 1) [.tryAcquire 1, .acquire 1, .acquire 0, .cancel 0, .release 1] := by decide
 example : ZeroGap (exec (init 1) [.tryAcquire 1, .acquire 1, .acquire 0]) 0 := by decide
 
 end TLVerif.Props.C42
